@@ -261,7 +261,21 @@ def run_case(case, ctx):
             n = check_noop(ctx, st, S, patterns.to_atoms(pat), atol, case["s"], w, variant=(case["s"] // 3) % 3,
                            group=built["planted"][0] if built["planted"] else None)
         else:
-            B = substituted(pat, rng, first=bool(case.get("exact")) and case["s"] % 2 == 0)
+            near_face = bool(case.get("exact")) and case["s"] % 3 == 1 and built["planted"]
+            if near_face:
+                # the whole (exact) structure is shifted so that the atom about to be substituted in the first copy lies a few
+                # millionths of a cell length inside a far cell face (fractional coordinate 1 - 3e-6 .. 1 - 9e-6)
+                cands_ = [i for i, e in enumerate(pat["elements"]) if e in SUBST]
+                if cands_:
+                    g = built["planted"][0][cands_[0]]
+                    cellm = np.array(S.cell, float)
+                    fr = G.frac(cellm, np.asarray(S.positions, float)[g])
+                    ax = int(rng.integers(3))
+                    sh = np.zeros(3)
+                    sh[ax] = (1.0 - float(rng.uniform(3e-6, 9e-6))) - fr[ax]
+                    S.positions = G.wrap(cellm, np.asarray(S.positions, float) + sh.dot(cellm))
+                    st.count("two_step_histories_with_the_substituted_atom_just_inside_a_far_face")
+            B = substituted(pat, rng, first=bool(case.get("exact")) and (case["s"] % 2 == 0 or bool(near_face)))
             if case.get("exact"):
                 st.count("two_step_histories_on_exact_copies_far_from_the_origin")
             if B is None:
@@ -312,6 +326,8 @@ def requirements(stats, tier):
     need = []
     if stats.get("self_replacements") < (100 if tier == "quick" else 12000) or stats.get("restorations_checked") < (100 if tier == "quick" else 12000):
         need.append("self replacements %d, restorations %d" % (stats.get("self_replacements"), stats.get("restorations_checked")))
+    if stats.get("two_step_histories_with_the_substituted_atom_just_inside_a_far_face") < (10 if tier == "quick" else 500):
+        need.append("two-step histories with the substituted atom a few millionths inside a far cell face: %d" % stats.get("two_step_histories_with_the_substituted_atom_just_inside_a_far_face"))
     if stats.get("two_step_histories_with_a_larger_B") < (20 if tier == "quick" else 2000):
         need.append("two-step histories in which B has one atom more than A: %d" % stats.get("two_step_histories_with_a_larger_B"))
     if stats.get("two_step_histories_on_exact_copies_far_from_the_origin") < (30 if tier == "quick" else 1500):
